@@ -262,7 +262,8 @@ impl P16E1 {
                 (frac32 & 0x3FFF_FFFF) >> (reg_len + 1),
             )
         };
-        Self::from_bits(u_z)
+        // rounding to nearest may reach 1.0; a sample has to stay inside [0, 1)
+        Self::from_bits(if u_z >= 0x4000 { 0x3FFF } else { u_z })
     }
 }
 
